@@ -164,12 +164,37 @@ Qed.
 Lemma num_ok_qof : forall v, num_ok v = true -> qof v = Some (qval v).
 Proof. intros v H. unfold num_ok, qval in *. destruct (qof v); [reflexivity|discriminate]. Qed.
 
-Lemma speed_ok_spec : forall v, speed_ok v = true -> qof v = Some (qval v) /\ clamp_speed v = Some (qval v).
+Lemma speed_ok_spec : forall v, speed_ok v = true -> qof v = Some (qval v) /\ clamp_speed v = Some (clampq (qval v)).
 Proof.
-  intros v H. unfold speed_ok in H. apply andb_true_iff in H as [H H2]. apply andb_true_iff in H as [H0 H1].
-  apply Qleb_true in H1, H2. pose proof (num_ok_qof v H0) as Q0. split; [exact Q0|].
-  unfold clamp_speed. rewrite Q0. f_equal. apply clampq_id; assumption.
+  intros v H. unfold speed_ok in H. pose proof (num_ok_qof v H) as Q0. split; [exact Q0|].
+  unfold clamp_speed. rewrite Q0. reflexivity.
 Qed.
+
+(* set_speed clamps again: handing it the clamped value or the raw one is the same call *)
+Lemma set_speed_q_clamp : forall m q, set_speed_q m (clampq q) = set_speed_q m q.
+Proof. intros m q. unfold set_speed_q. rewrite clampq_idem. reflexivity. Qed.
+
+Lemma clampq_cases : forall q, (1 < q /\ clampq q = 1) \/ (q < -(1) /\ clampq q = -(1)) \/ (-(1) <= q <= 1 /\ clampq q = q).
+Proof.
+  intro q. unfold clampq, qclamp.
+  destruct (Qltb 1 q) eqn:E1; [apply Qltb_true in E1; left; split; [exact E1|reflexivity]|apply Qltb_false in E1].
+  destruct (Qltb q (-(1))) eqn:E2; [apply Qltb_true in E2; right; left; split; [exact E2|reflexivity]|apply Qltb_false in E2].
+  right; right. split; [split; assumption|reflexivity].
+Qed.
+Lemma clampq_neg_abs : forall q, clampq (- qabs (clampq q)) == clampq (- qabs q).
+Proof.
+  intro q.
+  destruct (qabs_spec q) as (A1 & A2 & A3). destruct (qabs_spec (clampq q)) as (B1 & B2 & B3).
+  destruct (clampq_cases q) as [[H C]|[[H C]|[H C]]]; rewrite C in *.
+  - rewrite A1 by lra. change (qabs 1) with 1.
+    destruct (clampq_cases (- q)) as [[H' C']|[[H' C']|[H' C']]]; rewrite C'; try lra. reflexivity.
+  - rewrite A2 by lra. change (qabs (-(1))) with 1.
+    destruct (clampq_cases (- - q)) as [[H' C']|[[H' C']|[H' C']]]; rewrite C'; try lra. reflexivity.
+  - reflexivity.
+Qed.
+
+Lemma set_speed_q_backward : forall m q, set_speed_q m (- qabs (clampq q)) = set_speed_q m (- qabs q).
+Proof. intros m q. unfold set_speed_q. rewrite (Qred_complete _ _ (clampq_neg_abs q)). reflexivity. Qed.
 
 Lemma dur_ok_spec : forall v, dur_ok v = true -> py_lt v (PI 0) = Some false /\ dur0 (qval v) = qval v /\ 0 <= qval v.
 Proof.
@@ -193,7 +218,7 @@ Proof.
   unfold motor_in_range in G. pose proof G as Ga.
   (* set_speed *)
     destruct (speed_ok_spec v Ga) as [_ Cs]. cbn [mstep dmstep] in *. rewrite Cs in *.
-    rewrite ok_with_state, ok_with_events, ok_with_result.
+    rewrite ok_with_state, ok_with_events, ok_with_result. rewrite set_speed_q_clamp.
     destruct (set_speed_sim p m d (qval v) R2) as (S1 & S2 & S3).
     destruct (d_apply p d true (qval v)) as [d1 de]. cbn [fst snd] in *.
     split; [apply mrel_ghost; exact S1|]. split; [exact S2|]. split; [reflexivity|eexists; reflexivity].
@@ -209,7 +234,7 @@ Proof.
   unfold motor_in_range in G. pose proof G as Ga.
   (* backward *)
     destruct (speed_ok_spec (dflt_back ov) Ga) as [_ Cs]. cbn [mstep dmstep] in *. rewrite Cs in *.
-    rewrite ok_with_state, ok_with_events, ok_with_result.
+    rewrite ok_with_state, ok_with_events, ok_with_result. rewrite set_speed_q_backward.
     change (if Qltb (qval (dflt_back ov)) 0 then - qval (dflt_back ov) else qval (dflt_back ov)) with (qabs (qval (dflt_back ov))).
     destruct (set_speed_sim p m d (- qabs (qval (dflt_back ov))) R2) as (S1 & S2 & S3).
     destruct (d_apply p d true (- qabs (qval (dflt_back ov)))) as [d1 de]. cbn [fst snd] in *.
@@ -275,13 +300,10 @@ Proof.
     cbn [mstep dmstep] in *. rewrite Pl, Cs in *.
     rewrite ok_with_state, ok_with_events, ok_with_result.
     unfold d_ramp. rewrite D0, R1.
-    assert (Ct : qclamp (-(1)) 1 (qval t) = qval t).
-    { unfold speed_ok in Gs. apply andb_true_iff in Gs as [Gs G2]. apply andb_true_iff in Gs as [_ G1].
-      apply Qleb_true in G1, G2. apply qclamp_id. split; assumption. }
-    rewrite Ct. rewrite ramp_run_dc.
-    destruct (ramp_loop_sim (zsteps dc_ramp_steps) p m d (speed m) (qval t) (qval du / inject_Z dc_ramp_steps) R2) as [S1 S2].
+    change (qclamp (-(1)) 1 (qval t)) with (clampq (qval t)). rewrite ramp_run_dc.
+    destruct (ramp_loop_sim (zsteps dc_ramp_steps) p m d (speed m) (clampq (qval t)) (qval du / inject_Z dc_ramp_steps) R2) as [S1 S2].
     { left. rewrite ramp_steps_20. exact steps20_ne. }
-    destruct (d_ramp_loop _ p d (speed m) (qval t) _) as [d1 de]. cbn [fst snd] in *.
+    destruct (d_ramp_loop _ p d (speed m) (clampq (qval t)) _) as [d1 de]. cbn [fst snd] in *.
     split; [apply mrel_ghost; exact S1|]. split; [exact S2|]. split; [reflexivity|eexists; reflexivity].
 Qed.
 
@@ -296,7 +318,7 @@ Proof.
   (* run_for *)
     apply andb_true_iff in Ga as [Gd Gs].
     destruct (speed_ok_spec v Gs) as [_ Cs]. destruct (dur_ok_spec du Gd) as (Pl & D0 & Dn).
-    cbn [mstep dmstep] in *. rewrite Pl, Cs in *. unfold d_run_for. rewrite D0.
+    cbn [mstep dmstep] in *. rewrite Pl, Cs in *. unfold d_run_for. rewrite D0. rewrite set_speed_q_clamp.
     pose proof (set_speed_sim p m d (qval v) R2) as S.
     destruct (set_speed_q m (qval v)) as [m1 e1] eqn:Eh.
     destruct (d_apply p d true (qval v)) as [d1 de1] eqn:Ed.
@@ -437,3 +459,60 @@ Proof.
     destruct (speed_ok_spec v Gs) as [_ Cs]. destruct (dur_ok_spec du Gd) as (Pl & _ & Dn).
     cbn [mstep]. rewrite Pl, Cs. unfold set_speed_q, apply_speed, halt. rewrite ok_with_events. cbn. constructor; [exact Dn|constructor].
 Qed.
+
+(* ------------------------------------------------------------------ *)
+(* out-of-range speeds                                                 *)
+(* ------------------------------------------------------------------ *)
+Lemma motor_guard_any_speed : forall m v t d,
+  num_ok v = true -> num_ok t = true -> dur_ok d = true ->
+  motor_in_range m (MSetSpeed v) = true /\ motor_in_range m (MBackward (Some v)) = true /\
+  motor_in_range m (MRamp t d) = true /\ motor_in_range m (MRunFor d v) = true.
+Proof.
+  intros m v t d Hv Ht Hd. unfold motor_in_range, speed_ok, dflt_back. rewrite Hv, Ht, Hd. repeat split.
+Qed.
+
+Lemma d_apply_clamp : forall p d store v, d_apply p d store (clampq v) = d_apply p d store v.
+Proof.
+  intros [[in1 in2] en] d store v. unfold d_apply. change (qclamp (-(1)) 1 (clampq v)) with (clampq (clampq v)).
+  rewrite clampq_idem. reflexivity.
+Qed.
+
+Lemma d_apply_neg_abs_clamp : forall p d store v, d_apply p d store (- qabs (clampq v)) = d_apply p d store (- qabs v).
+Proof.
+  intros [[in1 in2] en] d store v. unfold d_apply.
+  change (qclamp (-(1)) 1 (- qabs (clampq v))) with (clampq (- qabs (clampq v))).
+  change (qclamp (-(1)) 1 (- qabs v)) with (clampq (- qabs v)).
+  rewrite (Qred_complete _ _ (clampq_neg_abs v)). reflexivity.
+Qed.
+
+Lemma motor_out_of_range_is_limit : forall p d v t du,
+  dmstep p d (MSetSpeed (PF v)) = dmstep p d (MSetSpeed (PF (clampq v))) /\
+  dmstep p d (MBackward (Some (PF v))) = dmstep p d (MBackward (Some (PF (clampq v)))) /\
+  dmstep p d (MRunFor du (PF v)) = dmstep p d (MRunFor du (PF (clampq v))) /\
+  dmstep p d (MRamp (PF t) du) = dmstep p d (MRamp (PF (clampq t)) du).
+Proof.
+  intros p d v t du. cbn [dmstep dflt_back]. unfold qval. cbn [qof]. split; [|split; [|split]].
+  - rewrite d_apply_clamp. reflexivity.
+  - change (if Qltb v 0 then - v else v) with (qabs v).
+    change (if Qltb (clampq v) 0 then - clampq v else clampq v) with (qabs (clampq v)).
+    rewrite d_apply_neg_abs_clamp. reflexivity.
+  - unfold d_run_for. rewrite d_apply_clamp. reflexivity.
+  - unfold d_ramp. change (qclamp (-(1)) 1 (clampq t)) with (clampq (clampq t)). rewrite clampq_idem. reflexivity.
+Qed.
+
+Definition out_ops : list mop :=
+  [MSetSpeed (PF (1 # 4)); MRamp (PI 2) (PI 200); MGetSpeed; MRamp (PI (-3)) (PI 100); MGetMode; MBackward (Some (PI 300));
+   MGetApplied; MInvert; MRunFor (PI 20) (PI (-2)); MGetMode; MSetSpeed (PF (3 # 2)); MGetSpeed; MRamp (PF (-5 # 4)) (PF (21 # 2)); MGetApplied].
+
+Lemma motor_out_ops_agree :
+  forallb (fun b => b) (motor_guard_flags (m0 (4, 5, 6)%Z) out_ops) = true /\
+  map dconv (fst (dmrun (4, 5, 6)%Z dminit out_ops)) = fst (fst (hmrun (4, 5, 6)%Z (m0 (4, 5, 6)%Z) out_ops)) /\
+  snd (fst (hmrun (4, 5, 6)%Z (m0 (4, 5, 6)%Z) out_ops)) = snd (dmrun (4, 5, 6)%Z dminit out_ops).
+Proof. vm_compute. repeat split. Qed.
+
+Lemma motor_ramp_clamps_first :
+  map (fun e => match e with EAW _ v => v | _ => (-1)%Z end)
+      (filter (fun e => match e with EAW _ _ => true | _ => false end)
+              (fst (dmrun (4, 5, 6)%Z dminit [MSetSpeed (PF (1 # 5)); MRamp (PI 2) (PI 0)]))) =
+  [51; 61; 71; 82; 92; 102; 112; 122; 133; 143; 153; 163; 173; 184; 194; 204; 214; 224; 235; 245; 255]%Z.
+Proof. vm_compute. reflexivity. Qed.
